@@ -289,6 +289,8 @@ pub fn parse_file_internal(context: &ParseContext) -> Result<(), Error> {
 pub enum NextItem {
     NewLine,
     EndIf,
+    /// skip the remaining arms of a conditional whose selected arm has been assembled
+    EndIfAll,
     EndMacro,
     EndFile,
 }
@@ -325,7 +327,7 @@ fn skip<'a>(
                 while let Some((num, line)) = iter.next() {
                     if let Ok(item) = document::line(line) {
                         if let Document::DirectiveLine(_, directive, _) = item {
-                            if other == NextItem::EndIf {
+                            if other == NextItem::EndIf || other == NextItem::EndIfAll {
                                 if directive == Directive::If
                                     || directive == Directive::IfDef
                                     || directive == Directive::IfNDef
@@ -335,7 +337,13 @@ fn skip<'a>(
                                     || directive == Directive::Else
                                     || directive == Directive::ElIf
                                 {
-                                    if scoup_count == 0 {
+                                    if scoup_count == 0 && other == NextItem::EndIfAll {
+                                        // only the closing .endif ends a finished conditional
+                                        if directive == Directive::Endif {
+                                            ret = iter.next();
+                                            break;
+                                        }
+                                    } else if scoup_count == 0 {
                                         ret = if directive == Directive::ElIf {
                                             Some((num, line))
                                         } else {
@@ -372,6 +380,9 @@ pub fn parse_iter<'a>(
 
     loop {
         if let Some((line_num, line)) = skip(iter, context, next_item) {
+            // an .elif found while skipping an unselected arm is a live condition; one that is
+            // reached by running off the end of the selected arm closes the conditional
+            let skipped_to_here = next_item == NextItem::EndIf;
             next_item = NextItem::NewLine; // clear conditional flag to typical state
             let line_num = line_num + 1;
             #[cfg(feature = "verif-hooks")]
@@ -405,7 +416,11 @@ pub fn parse_iter<'a>(
                                 ));
                             }
                         }
-                        let item = d.parse(&d_op_args, &context, CodePoint { line_num, num: 2 })?;
+                        let item = if d == Directive::ElIf && !skipped_to_here {
+                            NextItem::EndIfAll
+                        } else {
+                            d.parse(&d_op_args, &context, CodePoint { line_num, num: 2 })?
+                        };
                         next_item = item;
                     }
                     Document::EmptyLine => {}
